@@ -1,6 +1,639 @@
-(* CloseSafe: safety invariants of the repaired close model (property C10): handles invalid
-   after close, pending sets empty when close returns.  (Under construction: see Properties_C10.v
-   for what is stated.) *)
+(* CloseSafe: safety invariants of the repaired close model (property C10).
+   Program order is expressed by "facts" (latched state predicates) that an action requires and
+   establishes; the invariant says every continuation is a well-ordered chain.  From it:
+   close_handles_invalid.  *)
 From Coq Require Import List Arith NArith Bool Lia.
 Import ListNotations.
 From NngV Require Import Core.CloseModel Core.CloseProofs Core.CloseTerm.
+
+(* ================================================================ program order *)
+(* facts that, once true, stay true *)
+Inductive fact := FClosing | FEpsDone | FNoPipes | FShutDone | FClosed | FCtxsGone | FNoCtx | FFreed.
+
+Definition all_eps_off (s : st) : Prop := Forall (fun e => e_onlist e = false) (eps s).
+Definition all_pipes_off (s : st) : Prop := Forall (fun p => p_onlist p = false) (pipes s).
+Definition pub_ctxs_off (s : st) : Prop := Forall (fun c => c_pub c = true -> c_onlist c = false) (ctxs s).
+Definition all_ctxs_off (s : st) : Prop := Forall (fun c => c_onlist c = false) (ctxs s).
+
+Definition holds (s : st) (f : fact) : Prop :=
+  match f with
+  | FClosing => k_closing (sk s) = true
+  | FEpsDone => k_closing (sk s) = true /\ all_eps_off s
+  | FNoPipes => k_closing (sk s) = true /\ all_eps_off s /\ all_pipes_off s
+  | FShutDone => k_shutdone (sk s) = true
+  | FClosed => k_closed (sk s) = true
+  | FCtxsGone => k_closing (sk s) = true /\ pub_ctxs_off s
+  | FNoCtx => k_closed (sk s) = true /\ all_ctxs_off s
+  | FFreed => k_freed (sk s) = true
+  end.
+
+(* what must hold when an action runs / what holds once it has run *)
+Definition req (a : act) : list fact :=
+  match a with
+  | AShutEp => [FClosing]
+  | AWaitCtxs => [FClosing]
+  | AWaitRefs => [FClosed]
+  | AWaitPipes => [FEpsDone]
+  | AProtoClose => [FNoPipes]
+  | ASockClose2 role => if role =? R_SHUT then [FShutDone; FCtxsGone] else []
+  | ARet USockClose rv role =>
+      if role =? R_SHUT then (if N.eqb rv C_OK then [FShutDone; FClosed; FCtxsGone] else [])
+      else if role =? R_DESTROY then (if N.eqb rv C_OK then [FClosed; FNoCtx; FFreed] else []) else []
+  | _ => []
+  end.
+Definition est (a : act) : list fact :=
+  match a with
+  | AShutEp => [FEpsDone]
+  | AWaitCtxs => [FCtxsGone]
+  | AWaitRefs => [FNoCtx]
+  | ASockDestroy => [FFreed]
+  | AWaitPipes => [FNoPipes]
+  | AProtoClose => [FShutDone]
+  | ASockClose2 _ => [FClosed]
+  | _ => []
+  end.
+
+Fixpoint chain_ok (s : st) (E : list fact) (l : list act) : Prop :=
+  match l with
+  | [] => True
+  | a :: r => (forall f, In f (req a) -> holds s f \/ In f E) /\ chain_ok s (est a ++ E) r
+  end.
+
+Definition ests (l : list act) : list fact := flat_map est l.
+
+Lemma chain_weaken s s1 l : (forall f, holds s f -> holds s1 f) ->
+  forall E E', (forall f, In f E -> holds s1 f \/ In f E') -> chain_ok s E l -> chain_ok s1 E' l.
+Proof.
+  intros Hp; induction l as [|a r IH]; intros E E' HE H; simpl in *; auto.
+  destruct H as [H1 H2]. split.
+  - intros f Hf. destruct (H1 f Hf) as [Hh|Hin]; [left; auto|]. apply HE; auto.
+  - eapply IH; [|exact H2]. intros f Hf. apply in_app_or in Hf as [Hf|Hf]; [right; apply in_or_app; auto|].
+    destruct (HE f Hf); [left; auto|right; apply in_or_app; auto].
+Qed.
+
+Lemma chain_app s l1 : forall l2 E, chain_ok s E l1 -> chain_ok s (ests l1 ++ E) l2 -> chain_ok s E (l1 ++ l2).
+Proof.
+  induction l1 as [|a r IH]; intros l2 E H1 H2; simpl in *; auto.
+  destruct H1 as [Ha Hr]. split; auto. apply IH; auto.
+  eapply chain_weaken; [intros f Hf; exact Hf| |exact H2].
+  intros f Hf. right. unfold ests in *. simpl in Hf. rewrite <- app_assoc in Hf.
+  apply in_app_or in Hf as [Hf|Hf]; [apply in_or_app; right; apply in_or_app; auto|].
+  apply in_app_or in Hf as [Hf|Hf]; apply in_or_app; [left|right; apply in_or_app; right]; auto.
+Qed.
+
+(* ---- persistence of the facts along every step ---- *)
+Definition persist (s s1 : st) : Prop := forall f, holds s f -> holds s1 f.
+
+(* a sufficient condition in terms of the fields the facts read *)
+Lemma persist_intro s s1 :
+  (k_closing (sk s) = true -> k_closing (sk s1) = true) ->
+  (k_shutdone (sk s) = true -> k_shutdone (sk s1) = true) ->
+  (k_closed (sk s) = true -> k_closed (sk s1) = true) ->
+  (k_closing (sk s) = true -> all_eps_off s -> all_eps_off s1) ->
+  (k_closing (sk s) = true -> all_eps_off s -> all_pipes_off s -> all_pipes_off s1) ->
+  (k_freed (sk s) = true -> k_freed (sk s1) = true) ->
+  (k_closing (sk s) = true -> pub_ctxs_off s -> pub_ctxs_off s1) ->
+  (k_closed (sk s) = true -> all_ctxs_off s -> all_ctxs_off s1) ->
+  persist s s1.
+Proof.
+  intros H1 H2 H3 H4 H5 H6 H7 H8 f Hf. destruct f; simpl in *; auto; intuition.
+Qed.
+
+Ltac off_upd := first [assumption | apply Forall_upd; [intros []; simpl; auto|assumption]].
+
+Lemma close_pipes_off sel l : forall i ps q, close_pipes i sel l = (ps, q) ->
+  Forall (fun p => p_onlist p = false) l -> Forall (fun p => p_onlist p = false) ps.
+Proof.
+  induction l as [|y r IH]; intros i ps q H F; simpl in H.
+  - injection H as <- <-; auto.
+  - destruct (close_pipes (S i) sel r) as [r' q'] eqn:E. inversion F; subst.
+    destruct (sel y && p_onlist y && negb (p_closed y)); injection H as <- <-; constructor; eauto;
+      destruct y; simpl in *; auto.
+Qed.
+
+Lemma shut_ctxs_off (P : ctxst -> Prop) l : (forall c, P c -> P (cset_closed c)) -> (forall c, P c -> P (cset_fini (cset_unlink (cset_closed c)))) ->
+  forall cs a, shut_ctxs l = (cs, a) -> Forall P l -> Forall P cs.
+Proof.
+  intros H1 H2. induction l as [|c r IH]; intros cs a H F; simpl in H.
+  - injection H as <- <-; auto.
+  - destruct (shut_ctxs r) as [r' l'] eqn:E. inversion F; subst.
+    destruct (c_onlist c); [destruct (c_ref c =? 0)|]; injection H as <- <-; constructor; eauto.
+Qed.
+
+Lemma run_act_persist s a s1 more : run_act fixes_all s a = Some (s1, more) -> persist s s1.
+Proof.
+  intros H. apply persist_intro; unfold all_eps_off, all_pipes_off;
+  destruct a; simpl in H;
+    repeat (match type of H with
+            | context[match ?x with _ => _ end] => destruct x eqn:?
+            | context[if ?x then _ else _] => destruct x eqn:?
+            end); try discriminate H; inv_some H; simpl; auto; intros;
+    try off_upd;
+    try (apply Forall_app1; [assumption|reflexivity]);
+    try (eapply close_pipes_off; eauto; fail);
+    try congruence;
+    try (unfold pub_ctxs_off, all_ctxs_off in *; simpl;
+         first [ eapply shut_ctxs_off; [| |eassumption|assumption]; intros []; simpl; auto
+               | apply Forall_app1; [assumption|simpl; intros; congruence]
+               | apply Forall_upd; [intros []; simpl; auto; intros; congruence|assumption] ]).
+Qed.
+
+Lemma find_idx_none {A} (f : A -> bool) l : forall i, find_idx f l i = None -> Forall (fun x => f x = false) l.
+Proof. induction l as [|y r IH]; intros i H; simpl in *; auto. destruct (f y) eqn:E; [discriminate H|]. constructor; eauto. Qed.
+
+Lemma first_ep_none es : first_ep es = None -> Forall (fun e => e_onlist e = false) es.
+Proof.
+  unfold first_ep. destruct (find_idx (fun e => e_onlist e && negb (e_dialer e)) es 0); [discriminate|].
+  apply find_idx_none.
+Qed.
+
+Lemma existsb_false_Forall {A} (f : A -> bool) l : existsb f l = false -> Forall (fun x => f x = false) l.
+Proof. induction l; simpl; auto. intros H; apply orb_false_elim in H as [H1 H2]. constructor; auto. Qed.
+
+Ltac solve_in :=
+  repeat match goal with
+         | H : In _ [] |- _ => destruct H
+         | H : In _ (_ :: _) |- _ => destruct H as [H|H]; [subst|]
+         end.
+
+(* what one critical section does to the chain of its own continuation *)
+Ltac inl Hf := vm_compute in Hf; repeat (destruct Hf as [Hf|Hf]; [try subst|]); try contradiction.
+Ltac chain_triv :=
+  simpl; repeat match goal with
+                | |- _ /\ _ => split
+                | |- True => exact I
+                | |- forall f, _ -> _ => let f := fresh "f" in let Hf := fresh "Hf" in intros f Hf; inl Hf
+                end.
+Ltac boring H :=
+  repeat (match type of H with
+          | context[match ?x with _ => _ end] => destruct x eqn:?
+          | context[if ?x then _ else _] => destruct x eqn:?
+          end); try discriminate H; inv_some H;
+  try (match goal with |- chain_ok _ _ (after_find ?u) /\ _ => destruct u as [| | | | | | | |[c|] ? ?| | | |] end);
+  simpl; split; chain_triv.
+
+Lemma act_chain s a s1 more :
+  (forall f, In f (req a) -> holds s f) -> run_act fixes_all s a = Some (s1, more) ->
+  chain_ok s1 [] more /\ (forall f, In f (est a) -> holds s1 f \/ In f (ests more)).
+Proof.
+  intros Hreq H.
+  destruct a; simpl in H; try (boring H; fail).
+  - (* AShutBegin *)
+    destruct (k_device (sk s) && negb dev); [boring H|].
+    destruct (k_closing (sk s)) eqn:Ec; inv_some H.
+    + simpl. split; [repeat split; intros f Hf; inl Hf|intros f Hf; inl Hf].
+    + simpl. split; [|intros f Hf; inl Hf].
+      repeat split; intros f Hf; inl Hf; simpl; auto.
+  - (* AShutEp *)
+    pose proof (Hreq FClosing (or_introl eq_refl)) as Hc; simpl in Hc.
+    destruct (first_ep (eps s)) eqn:F.
+    + destruct (nth_error (eps s) n) eqn:E.
+      * destruct (e_closed e); [discriminate H|]. inv_some H. simpl.
+        split; [repeat split; intros f Hf; inl Hf; simpl; auto|intros f Hf; inl Hf; right; simpl; auto].
+      * inv_some H. simpl. split; auto. intros f Hf; inl Hf. left. split; auto.
+        (* first_ep returned an index that does not exist: impossible *)
+        exfalso. unfold first_ep in F.
+        destruct (find_idx (fun e => e_onlist e && negb (e_dialer e)) (eps s) 0) eqn:F1.
+        -- injection F as ->. apply find_idx_spec in F1 as (_ & x & Hn & _). rewrite Nat.sub_0_r in Hn. congruence.
+        -- apply find_idx_spec in F as (_ & x & Hn & _). rewrite Nat.sub_0_r in Hn. congruence.
+    + inv_some H. simpl. split; auto. intros f Hf; inl Hf. left. split; auto. apply first_ep_none; auto.
+  - (* AWaitCtxs *)
+    pose proof (Hreq FClosing (or_introl eq_refl)) as Hc; simpl in Hc.
+    destruct (any_ctx_onlist s) eqn:Ep; [discriminate H|]. inv_some H. simpl. split; auto.
+    intros f Hf; inl Hf. left. split; auto.
+    apply existsb_false_Forall in Ep. unfold pub_ctxs_off. eapply Forall_impl; [|exact Ep]. simpl; auto.
+  - (* AWaitPipes *)
+    pose proof (Hreq FEpsDone (or_introl eq_refl)) as [Hc He]; simpl in Hc.
+    destruct (any_pipe_onlist s) eqn:Ep; [discriminate H|]. inv_some H. simpl. split; auto.
+    intros f Hf; inl Hf. left. split; [|split]; auto. apply existsb_false_Forall; auto.
+  - (* AProtoClose *)
+    pose proof (Hreq FNoPipes (or_introl eq_refl)) as (Hc & He & Hp).
+    destruct (k_phase (sk s)); inv_some H; simpl; (split; [auto|intros f Hf; inl Hf; left; reflexivity]).
+  - (* ASockClose2 *)
+    destruct (k_closed (sk s)) eqn:Ec; inv_some H; simpl.
+    + split; [|intros f Hf; inl Hf; left; auto].
+      split; [intros f Hf; inl Hf|]. split; [|auto].
+      intros f Hf. destruct (role =? R_SHUT) eqn:Er.
+      * simpl in Hf. destruct Hf as [<-|[<-|[<-|[]]]]; left; simpl; auto.
+        -- apply (Hreq FShutDone). simpl. rewrite Er. simpl; auto.
+        -- apply (Hreq FCtxsGone). simpl. rewrite Er. simpl; auto.
+      * simpl in Hf. destruct Hf.
+    + split; [|intros f Hf; inl Hf; left; reflexivity].
+      repeat split; intros f Hf; inl Hf; simpl; auto.
+  - (* AWaitRefs *)
+    pose proof (Hreq FClosed (or_introl eq_refl)) as Hc; simpl in Hc.
+    destruct ((k_ref (sk s) <=? 1) && negb (any_ctx_onlist s)) eqn:Eb; [|discriminate H]. inv_some H. simpl. split; auto.
+    intros f Hf; inl Hf. left. split; auto.
+    apply andb_prop in Eb as [_ Eb]. destruct (any_ctx_onlist s) eqn:Ep; [discriminate Eb|].
+    apply existsb_false_Forall in Ep. exact Ep.
+  - (* ASockDestroy *)
+    destruct (k_finic (sk s) || true); inv_some H; simpl; (split; [auto|intros f Hf; inl Hf; left; reflexivity]).
+Qed.
+
+Lemma step_persist s l s' : step fixes_all s l = Some s' -> persist s s'.
+Proof.
+  intros H. destruct l; simpl in H.
+  - destruct (handle_known s u); [|discriminate H]. injection H as <-. intros f Hf; destruct f; exact Hf.
+  - destruct (nth_error (threads s) k) as [[|a rest]|]; try discriminate H.
+    destruct (run_act fixes_all s a) as [[s1 more]|] eqn:E; [|discriminate H]. injection H as <-.
+    intros f Hf. apply (run_act_persist _ _ _ _ E) in Hf. destruct f; exact Hf.
+  - destruct (reaper s) as [|a rest].
+    + destruct (rq s) as [|[p|e] q]; [discriminate H| |]; injection H as <-; intros f Hf; destruct f; exact Hf.
+    + destruct (run_act fixes_all s a) as [[s1 more]|] eqn:E; [|discriminate H]. injection H as <-.
+      intros f Hf. apply (run_act_persist _ _ _ _ E) in Hf. destruct f; exact Hf.
+  - destruct (nth_error (eps s) e) as [x|]; [|discriminate H]. destruct (e_busy x); [discriminate H|]. injection H as <-.
+    apply persist_intro; simpl; auto; unfold all_eps_off, all_pipes_off; simpl; intros; off_upd.
+  - destruct (nth_error (pipes s) p) as [x|]; [|discriminate H]. destruct (p_busy x); [discriminate H|]. injection H as <-.
+    apply persist_intro; simpl; auto; unfold all_eps_off, all_pipes_off; simpl; intros; off_upd.
+  - destruct (has_aio a (k_pend (sk s))); [injection H as <-; apply persist_intro; simpl; auto|].
+    destruct (existsb (fun c => has_aio a (c_pend c)) (ctxs s)); [|discriminate H]. injection H as <-.
+    apply persist_intro; simpl; auto; unfold pub_ctxs_off, all_ctxs_off; simpl; intros;
+      rewrite Forall_map; (eapply Forall_impl; [|eassumption]); intros []; simpl; auto.
+  - destruct (nth_error (eps s) e) as [x|] eqn:E; [|discriminate H].
+    destruct (e_tranclosed x || e_freed x || negb (e_onlist x)) eqn:Eb; [discriminate H|]. injection H as <-.
+    apply persist_intro; simpl; auto; unfold all_eps_off, all_pipes_off; simpl; intros Hc He; auto.
+    (* no endpoint is on the list any more, so none can get a pipe *)
+    exfalso. pose proof (Forall_nth _ _ _ _ He E) as X; simpl in X. rewrite X in Eb. simpl in Eb. rewrite !orb_true_r in Eb. discriminate Eb.
+  - destruct (nth_error (pipes s) p) as [x|]; [|discriminate H]. destruct (p_stopped x || p_freed x); [discriminate H|]. injection H as <-.
+    apply persist_intro; simpl; auto; unfold all_eps_off, all_pipes_off; simpl; intros; off_upd.
+  - destruct (nth_error (eps s) e) as [x|]; [|discriminate H]. destruct (e_stopped x || e_freed x); [discriminate H|]. injection H as <-.
+    apply persist_intro; simpl; auto; unfold all_eps_off, all_pipes_off; simpl; intros; off_upd.
+  - destruct (k_closing (sk s) || k_closed (sk s) || k_device (sk s) || k_freed (sk s)) eqn:Eb; [discriminate H|]. injection H as <-.
+    apply persist_intro; simpl; auto.
+Qed.
+
+(* ================================================================ the safety invariant *)
+Definition ep_ok (e : epst) : Prop :=
+  (e_closed e = true -> e_inmap e = false) /\ (e_pub e = true -> e_closed e = false -> e_onlist e = true) /\
+  (e_pub e = true -> e_onlist e = false -> e_stopped e = true) /\
+  (e_stopped e = true -> e_busy e = 0) /\ (e_busy e = 0 -> e_pend e = []).
+Definition ctx_ok (c : ctxst) : Prop :=
+  (c_onlist c = false -> c_freed c = true) /\ (c_freed c = true -> c_pend c = []) /\ (c_pub c = false -> c_pend c = []).
+Definition pipe_ok (p : pipest) : Prop := p_inmap p = true -> p_onlist p = true.
+Definition ret_ok (s : st) (r : uop * N * nat) : Prop :=
+  match r with
+  | (USockClose, rv, role) =>
+      rv = C_OK -> (role = R_SHUT -> holds s FShutDone /\ holds s FClosed /\ holds s FCtxsGone) /\
+                   (role = R_DESTROY -> holds s FClosed /\ holds s FNoCtx /\ holds s FFreed)
+  | _ => True
+  end.
+
+Definition SInv (s : st) : Prop :=
+  Forall (chain_ok s []) (threads s) /\ chain_ok s [] (reaper s) /\
+  Forall (ret_ok s) (rets s) /\
+  (k_shutdone (sk s) = true -> holds s FNoPipes) /\
+  ((k_closed (sk s) = true -> k_inmap (sk s) = false) /\ (k_freed (sk s) = true -> k_pend (sk s) = [])) /\
+  (Forall ep_ok (eps s) /\ Forall ctx_ok (ctxs s)) /\ Forall pipe_ok (pipes s).
+
+Lemma chain_persist s s1 l : persist s s1 -> chain_ok s [] l -> chain_ok s1 [] l.
+Proof. intros Hp. apply chain_weaken; auto; intros f []. Qed.
+
+Lemma ret_ok_persist s s1 r : persist s s1 -> ret_ok s r -> ret_ok s1 r.
+Proof.
+  intros Hp. destruct r as [[u rv] role]; destruct u; simpl; auto.
+  intros H Hr. destruct (H Hr) as [H1 H2]. split; intros Hx.
+  - destruct (H1 Hx) as (A & B & C). split; [apply (Hp FShutDone A)|split; [apply (Hp FClosed B)|apply (Hp FCtxsGone C)]].
+  - destruct (H2 Hx) as (A & B & C). split; [apply (Hp FClosed A)|split; [apply (Hp FNoCtx B)|apply (Hp FFreed C)]].
+Qed.
+
+Lemma Forall_upd_at {A} (P : A -> Prop) (l : list A) i f x :
+  nth_error l i = Some x -> (P x -> P (f x)) -> Forall P l -> Forall P (upd l i f).
+Proof.
+  revert i; induction l as [|y r IH]; intros [|i] E Hf F; simpl in *; try discriminate; inversion F; subst.
+  - injection E as ->. constructor; auto.
+  - constructor; eauto.
+Qed.
+
+Lemma close_pipes_ok sel l : forall i ps q, close_pipes i sel l = (ps, q) -> Forall pipe_ok l -> Forall pipe_ok ps.
+Proof.
+  induction l as [|y r IH]; intros i ps q H F; simpl in H.
+  - injection H as <- <-; auto.
+  - destruct (close_pipes (S i) sel r) as [r' q'] eqn:E. inversion F; subst.
+    destruct (sel y && p_onlist y && negb (p_closed y)); injection H as <- <-; constructor; eauto;
+      destruct y; unfold pipe_ok in *; simpl in *; auto.
+Qed.
+
+(* the per-object part of the invariant is preserved by every critical section *)
+Definition sock_ok (s : st) : Prop :=
+  (k_closed (sk s) = true -> k_inmap (sk s) = false) /\ (k_freed (sk s) = true -> k_pend (sk s) = []).
+
+Ltac ep_case x := destruct x; unfold ep_ok in *; simpl in *;
+  repeat match goal with H : _ /\ _ |- _ => destruct H end;
+  repeat split; intros; subst; simpl in *; try congruence; try lia; auto;
+  try (match goal with H : (_ =? _) = true |- _ => apply Nat.eqb_eq in H; subst; auto end);
+  try (destruct e_closed; simpl in *; congruence).
+Ltac ctx_case x := destruct x; unfold ctx_ok in *; simpl in *;
+  repeat match goal with H : _ /\ _ |- _ => destruct H end;
+  repeat split; intros; subst; simpl in *; try congruence; auto;
+  try (match goal with H : ?b = false, H' : negb ?b = false |- _ => rewrite H in H'; discriminate H' end).
+
+Lemma run_act_objs s a s1 more : run_act fixes_all s a = Some (s1, more) ->
+  sock_ok s -> Forall ep_ok (eps s) -> Forall ctx_ok (ctxs s) -> Forall pipe_ok (pipes s) ->
+  sock_ok s1 /\ Forall ep_ok (eps s1) /\ Forall ctx_ok (ctxs s1) /\ Forall pipe_ok (pipes s1).
+Proof.
+  intros H [K1 K3] FE FC FP. unfold sock_ok.
+  destruct a; simpl in H;
+    repeat (match type of H with
+            | context[match ?x with _ => _ end] => destruct x eqn:?
+            | context[if ?x then _ else _] => destruct x eqn:?
+            end); try discriminate H; inv_some H; simpl;
+    (split; [split|split; [|split]]); auto;
+    try (intros; congruence);
+    try (eapply close_pipes_ok; eauto; fail);
+    try (eapply shut_ctxs_off; [| |eassumption|assumption]; intros c0 Hc0; ctx_case c0; fail);
+    try (apply Forall_app1; [assumption|unfold ep_ok, pipe_ok, ctx_ok; simpl; repeat split; intros; congruence]);
+    try (match goal with
+         | E : nth_error (eps s) ?e = Some ?x |- Forall ep_ok (upd (eps s) ?e _) =>
+             apply (Forall_upd_at ep_ok _ _ _ _ E); [|assumption]; intros Hx; ep_case x
+         | E : nth_error (ctxs s) ?e = Some ?x |- Forall ctx_ok (upd (ctxs s) ?e _) =>
+             apply (Forall_upd_at ctx_ok _ _ _ _ E); [|assumption]; intros Hx; ctx_case x
+         | E : nth_error (pipes s) ?p = Some ?x |- Forall pipe_ok (upd (pipes s) ?p _) =>
+             apply (Forall_upd_at pipe_ok _ _ _ _ E); [|assumption]; destruct x; unfold pipe_ok; simpl in *;
+             intros A; intros; try congruence; auto
+         end);
+    try (apply Forall_upd; [intros x0 Hx; match type of x0 with epst => ep_case x0 | ctxst => ctx_case x0 | pipest => (destruct x0; unfold pipe_ok in *; simpl in *; intros; first [congruence|auto]) end|assumption]).
+  all: try (match goal with H : _ || true = false |- _ => rewrite orb_true_r in H; discriminate H end).
+  all: try (destruct e_closed, e_stopped; simpl in *; congruence).
+Qed.
+
+
+
+Ltac split7 := split; [|split; [|split; [|split; [|split; [|split]]]]].
+
+Lemma persist_same s1 s2 : sk s2 = sk s1 -> eps s2 = eps s1 -> pipes s2 = pipes s1 -> ctxs s2 = ctxs s1 -> persist s1 s2.
+Proof. intros A B C D f Hf. destruct f; unfold holds, all_eps_off, all_pipes_off, pub_ctxs_off, all_ctxs_off in *; rewrite ?A, ?B, ?C, ?D; exact Hf. Qed.
+
+(* the part of the invariant that concerns the acting continuation and the logs, for a critical section *)
+Lemma act_parts s a rest s1 more :
+  chain_ok s [] (a :: rest) -> Forall (ret_ok s) (rets s) -> (k_shutdone (sk s) = true -> holds s FNoPipes) ->
+  run_act fixes_all s a = Some (s1, more) ->
+  chain_ok s1 [] (more ++ rest) /\ Forall (ret_ok s1) (rets s1) /\ (k_shutdone (sk s1) = true -> holds s1 FNoPipes).
+Proof.
+  intros [Hreq Hrest] Hret Hk2 Er. simpl in Hrest.
+  pose proof (run_act_persist _ _ _ _ Er) as Hp1.
+  assert (Hreq': forall f, In f (req a) -> holds s f) by (intros f Hf; destruct (Hreq f Hf) as [|[]]; auto).
+  pose proof (act_chain _ _ _ _ Hreq' Er) as [Cm Ce].
+  split; [|split].
+  - apply chain_app; auto. rewrite app_nil_r.
+    eapply chain_weaken; [exact Hp1| |exact Hrest]. intros f Hf. rewrite app_nil_r in Hf. apply Ce; auto.
+  - assert (Hold: Forall (ret_ok s1) (rets s)).
+    { eapply Forall_impl; [|exact Hret]. intros r Hr0. eapply ret_ok_persist; eauto. }
+    destruct a; simpl in Er;
+      try (repeat (match type of Er with
+                   | context[match ?x with _ => _ end] => destruct x eqn:?
+                   | context[if ?x then _ else _] => destruct x eqn:?
+                   end); try discriminate Er; inv_some Er; simpl; exact Hold).
+    (* ARet *)
+    inv_some Er. simpl. apply Forall_app1; auto.
+    destruct u; simpl; auto. intros ->.
+    split; intros ->; simpl in Hreq'.
+    + split; [apply (Hreq' FShutDone)|split; [apply (Hreq' FClosed)|apply (Hreq' FCtxsGone)]]; simpl; auto.
+    + split; [apply (Hreq' FClosed)|split; [apply (Hreq' FNoCtx)|apply (Hreq' FFreed)]]; simpl; auto.
+  - intros Hs. destruct (k_shutdone (sk s)) eqn:Es; [apply Hp1; auto|].
+    (* it was set by this step: AProtoClose, whose requirement is exactly this fact *)
+    destruct a; simpl in Er;
+      try (repeat (match type of Er with
+                   | context[match ?x with _ => _ end] => destruct x eqn:?
+                   | context[if ?x then _ else _] => destruct x eqn:?
+                   end); try discriminate Er; inv_some Er; simpl in Hs; congruence).
+    apply Hp1. apply Hreq'. simpl; auto.
+Qed.
+
+Lemma SInv_step s l s' : SInv s -> step fixes_all s l = Some s' -> SInv s'.
+Proof.
+  intros (Ht & Hr & Hret & Hk2 & K & (FE & FC) & FP) Hstep.
+  pose proof (step_persist _ _ _ Hstep) as Hp.
+  assert (A1: Forall (chain_ok s' []) (threads s)) by (eapply Forall_impl; [|exact Ht]; intros t Hc; eapply chain_persist; eauto).
+  assert (A2: chain_ok s' [] (reaper s)) by (eapply chain_persist; eauto).
+  assert (A3: Forall (ret_ok s') (rets s)) by (eapply Forall_impl; [|exact Hret]; intros r Hr0; eapply ret_ok_persist; eauto).
+  assert (A4: k_shutdone (sk s) = true -> holds s' FNoPipes) by (intros X; apply Hp; auto).
+  destruct l; simpl in Hstep.
+  - (* LSpawn *)
+    destruct (handle_known s u); [|discriminate Hstep]. injection Hstep as <-.
+    split7; auto.
+    simpl. apply Forall_app1; [exact A1|]. destruct u; chain_triv.
+  - (* LRun *)
+    destruct (nth_error (threads s) k) as [[|a rest]|] eqn:Et; try discriminate Hstep.
+    destruct (run_act fixes_all s a) as [[s1 more]|] eqn:Er; [|discriminate Hstep]. injection Hstep as <-.
+    pose proof (run_act_frame _ _ _ _ _ Er) as [Ft Fr].
+    destruct (act_parts _ _ _ _ _ (Forall_nth _ _ _ _ Ht Et) Hret Hk2 Er) as (B1 & B2 & B3).
+    destruct (run_act_objs _ _ _ _ Er K FE FC FP) as (K1' & FE' & FC' & FP').
+    set (s' := set_threads s1 (upd (threads s1) k (fun _ => more ++ rest))) in *.
+    assert (Hps: persist s1 s') by (apply persist_same; reflexivity).
+    split7.
+    + change (threads s') with (upd (threads s1) k (fun _ => more ++ rest)). rewrite Ft.
+      apply Forall_upd_set; [exact A1|]. eapply chain_persist; eauto.
+    + change (reaper s') with (reaper s1). rewrite Fr. exact A2.
+    + change (rets s') with (rets s1). eapply Forall_impl; [|exact B2]. intros r Hr0. eapply ret_ok_persist; eauto.
+    + intros X. apply Hps. apply B3. exact X.
+    + exact K1'.
+    + split; [exact FE'|exact FC'].
+    + exact FP'.
+  - (* LReap *)
+    destruct (reaper s) as [|a rest] eqn:Erp.
+    + destruct (rq s) as [|[p|e] q] eqn:Eq; [discriminate Hstep| |]; injection Hstep as <-;
+        split7; auto; chain_triv.
+    + destruct (run_act fixes_all s a) as [[s1 more]|] eqn:Er; [|discriminate Hstep]. injection Hstep as <-.
+      pose proof (run_act_frame _ _ _ _ _ Er) as [Ft Fr].
+      destruct (act_parts _ _ _ _ _ Hr Hret Hk2 Er) as (B1 & B2 & B3).
+      destruct (run_act_objs _ _ _ _ Er K FE FC FP) as (K1' & FE' & FC' & FP').
+      set (s' := set_reaper s1 (more ++ rest)) in *.
+      assert (Hps: persist s1 s') by (apply persist_same; reflexivity).
+      split7.
+      * change (threads s') with (threads s1). rewrite Ft. exact A1.
+      * change (reaper s') with (more ++ rest). eapply chain_persist; eauto.
+      * change (rets s') with (rets s1). eapply Forall_impl; [|exact B2]. intros r Hr0. eapply ret_ok_persist; eauto.
+      * intros X. apply Hps. apply B3. exact X.
+      * exact K1'.
+      * split; [exact FE'|exact FC'].
+      * exact FP'.
+  - (* LEpCb *)
+    destruct (nth_error (eps s) e) as [x|] eqn:E; [|discriminate Hstep].
+    destruct (e_busy x) eqn:Eb; [discriminate Hstep|]. injection Hstep as <-.
+    split7; auto. split; [|exact FC]. simpl.
+    apply (Forall_upd_at ep_ok _ _ _ _ E); auto. intros Hx. ep_case x.
+  - (* LPipeCb *)
+    destruct (nth_error (pipes s) p) as [x|] eqn:E; [|discriminate Hstep].
+    destruct (p_busy x); [discriminate Hstep|]. injection Hstep as <-.
+    split7; auto; simpl.
+    all: try (apply (Forall_upd_at pipe_ok _ _ _ _ E); auto; destruct x; unfold pipe_ok; simpl; auto).
+  - (* LComplete *)
+    destruct K as [K1 K3].
+    destruct (has_aio a (k_pend (sk s))).
+    { injection Hstep as <-; split7; auto. split; simpl; auto. intros X. rewrite (K3 X). reflexivity. }
+    destruct (existsb (fun c => has_aio a (c_pend c)) (ctxs s)); [|discriminate Hstep].
+    injection Hstep as <-; split7; auto. split; [exact FE|]. simpl.
+    rewrite Forall_map. eapply Forall_impl; [|exact FC]. intros c Hc. ctx_case c;
+      match goal with H : _ -> ?l = [] |- _ => rewrite H by auto; reflexivity end.
+  - (* LPipeCreate *)
+    destruct (nth_error (eps s) e) as [x|] eqn:E; [|discriminate Hstep].
+    destruct (e_tranclosed x || e_freed x || negb (e_onlist x)); [discriminate Hstep|]. injection Hstep as <-.
+    split7; auto; simpl.
+    all: try (apply Forall_app1; auto). all: try (unfold pipe_ok; simpl; auto; fail). all: try chain_triv.
+  - (* LPipeOp *)
+    destruct (nth_error (pipes s) p) as [x|] eqn:E; [|discriminate Hstep].
+    destruct (p_stopped x || p_freed x); [discriminate Hstep|]. injection Hstep as <-.
+    split7; auto; simpl.
+    all: try (apply (Forall_upd_at pipe_ok _ _ _ _ E); auto; destruct x; unfold pipe_ok; simpl; auto).
+  - (* LEpOp *)
+    destruct (nth_error (eps s) e) as [x|] eqn:E; [|discriminate Hstep].
+    destruct (e_stopped x || e_freed x) eqn:Eb; [discriminate Hstep|]. injection Hstep as <-.
+    split7; auto. split; [|exact FC]. simpl.
+    apply (Forall_upd_at ep_ok _ _ _ _ E); auto. intros Hx. apply orb_false_elim in Eb as [Eb _]. ep_case x.
+  - (* LDevStart *)
+    destruct (k_closing (sk s) || k_closed (sk s) || k_device (sk s) || k_freed (sk s)) eqn:Eb; [discriminate Hstep|].
+    injection Hstep as <-. split7; auto.
+    all: try (destruct K as [K1 K3]; split; simpl; auto).
+    all: try (intros X; apply orb_false_elim in Eb as [Eb _]; apply orb_false_elim in Eb as [Eb _]; apply orb_false_elim in Eb as [_ Eb]; congruence).
+Qed.
+
+Lemma SInv_init ph l f : SInv (init ph l f).
+Proof. unfold SInv, init; simpl. split7; auto; try (intros X; discriminate X). all: try (split; intros X; [discriminate X|reflexivity]). Qed.
+
+Theorem SInv_run ls : forall s s', SInv s -> run fixes_all s ls = Some s' -> SInv s'.
+Proof.
+  induction ls as [|l r IH]; intros s s' Hi H; simpl in H.
+  - injection H as <-; auto.
+  - destruct (step fixes_all s l) as [s1|] eqn:E; [|discriminate H]. apply (IH s1 s'); auto. eapply SInv_step; eauto.
+Qed.
+
+(* ================================================================ close_handles_invalid *)
+Definition handles_invalid (s : st) : Prop :=
+  find_sock s <> None /\
+  (forall c, find_ctx s c <> None) /\
+  (forall e x, nth_error (eps s) e = Some x -> e_pub x = true -> find_ep s e <> None) /\
+  (forall p, find_pipe s p <> None).
+
+Lemma shut_closed_invalid s : SInv s -> k_shutdone (sk s) = true -> k_closed (sk s) = true -> handles_invalid s.
+Proof.
+  intros (_ & _ & _ & Hk2 & (K1 & _) & (FE & _) & FP) Hs Hc.
+  destruct (Hk2 Hs) as (_ & Heo & Hpo).
+  unfold handles_invalid. split; [|split; [|split]].
+  - unfold find_sock. rewrite (K1 Hc). discriminate.
+  - intros c. unfold find_ctx. destruct (nth_error (ctxs s) c); [|discriminate].
+    destruct (c_inmap c0); [|discriminate]. rewrite Hc, orb_true_r. discriminate.
+  - intros e x E Hp. unfold find_ep. rewrite E.
+    pose proof (Forall_nth _ _ _ _ FE E) as (E1 & E2 & _). pose proof (Forall_nth _ _ _ _ Heo E) as Ho. simpl in Ho.
+    destruct (e_closed x) eqn:Ecl.
+    + rewrite E1 by auto. discriminate.
+    + rewrite E2 in Ho by auto. discriminate Ho.
+  - intros p. unfold find_pipe. destruct (nth_error (pipes s) p) as [x|] eqn:E; [|discriminate].
+    pose proof (Forall_nth _ _ _ _ FP E) as P1. pose proof (Forall_nth _ _ _ _ Hpo E) as Ho. simpl in Ho.
+    destruct (p_inmap x) eqn:Ei; [|discriminate]. rewrite P1 in Ho by auto. discriminate Ho.
+Qed.
+
+(* In every state of every run: once a nng_socket_close that ran the shutdown (the first closer) has returned 0,
+   the socket's handle, every context handle, every endpoint handle handed to the application and every pipe
+   handle is invalid (find fails); rets only grows and the statement holds in all later states as well. *)
+Theorem close_handles_invalid_shut ph la fi ls s :
+  run fixes_all (init ph la fi) ls = Some s ->
+  In (USockClose, C_OK, R_SHUT) (rets s) -> handles_invalid s.
+Proof.
+  intros Hr Hin. pose proof (SInv_run _ _ _ (SInv_init ph la fi) Hr) as Hi.
+  pose proof Hi as (_ & _ & Hret & _).
+  rewrite Forall_forall in Hret. specialize (Hret _ Hin). simpl in Hret.
+  destruct (Hret eq_refl) as [H1 _]. destruct (H1 eq_refl) as (Hs & Hc & _). apply shut_closed_invalid; auto.
+Qed.
+
+(* any nng_socket_close that returned 0 as the destroyer: the socket and its contexts are invalid (the endpoints and
+   pipes too when the shutdown it waited for has completed: see close_destroyer_partial) *)
+Theorem close_handles_invalid_destroy ph la fi ls s :
+  run fixes_all (init ph la fi) ls = Some s ->
+  In (USockClose, C_OK, R_DESTROY) (rets s) ->
+  find_sock s <> None /\ (forall c, find_ctx s c <> None) /\ (k_shutdone (sk s) = true -> handles_invalid s).
+Proof.
+  intros Hr Hin. pose proof (SInv_run _ _ _ (SInv_init ph la fi) Hr) as Hi.
+  pose proof Hi as (_ & _ & Hret & _ & (K1 & _) & _).
+  rewrite Forall_forall in Hret. specialize (Hret _ Hin). simpl in Hret.
+  destruct (Hret eq_refl) as [_ H2]. destruct (H2 eq_refl) as (H2' & _). clear H2. rename H2' into H2.
+  split; [|split].
+  - unfold find_sock. rewrite (K1 H2). discriminate.
+  - intros c. unfold find_ctx. destruct (nth_error (ctxs s) c); [|discriminate].
+    destruct (c_inmap c0); [|discriminate]. rewrite H2, orb_true_r. discriminate.
+  - intros Hs. apply shut_closed_invalid; auto.
+Qed.
+
+(* ================================================================ close_completes_pending *)
+(* The first closer (it ran the shutdown) has returned 0: no operation is pending on any context
+   or on any endpoint the application knows. *)
+Theorem close_completes_pending_shut ph la fi ls s :
+  run fixes_all (init ph la fi) ls = Some s ->
+  In (USockClose, C_OK, R_SHUT) (rets s) ->
+  (forall c x, nth_error (ctxs s) c = Some x -> c_pend x = []) /\
+  (forall e x, nth_error (eps s) e = Some x -> e_pub x = true -> e_pend x = []).
+Proof.
+  intros Hr Hin. pose proof (SInv_run _ _ _ (SInv_init ph la fi) Hr) as Hi.
+  pose proof Hi as (_ & _ & Hret & Hk2 & _ & (FE & FC) & _).
+  rewrite Forall_forall in Hret. specialize (Hret _ Hin). simpl in Hret.
+  destruct (Hret eq_refl) as [H1 _]. destruct (H1 eq_refl) as (Hs & Hc & (_ & Hg)).
+  destruct (Hk2 Hs) as (_ & Heo & _).
+  split.
+  - intros c x E. pose proof (Forall_nth _ _ _ _ FC E) as (C1 & C2 & C3).
+    pose proof (Forall_nth _ _ _ _ Hg E) as Hp. simpl in Hp.
+    destruct (c_pub x) eqn:Epub; [|auto]. apply C2, C1; auto.
+  - intros e x E Hp. pose proof (Forall_nth _ _ _ _ FE E) as (_ & _ & E3 & E4 & E5).
+    pose proof (Forall_nth _ _ _ _ Heo E) as Ho. simpl in Ho. auto.
+Qed.
+
+(* The closer that destroyed the socket has returned 0: nothing is pending on the socket or on any
+   context (and on no endpoint either once the shutdown has completed). *)
+Theorem close_completes_pending_destroy ph la fi ls s :
+  run fixes_all (init ph la fi) ls = Some s ->
+  In (USockClose, C_OK, R_DESTROY) (rets s) ->
+  k_pend (sk s) = [] /\ (forall c x, nth_error (ctxs s) c = Some x -> c_pend x = []) /\
+  (k_shutdone (sk s) = true -> forall e x, nth_error (eps s) e = Some x -> e_pub x = true -> e_pend x = []).
+Proof.
+  intros Hr Hin. pose proof (SInv_run _ _ _ (SInv_init ph la fi) Hr) as Hi.
+  pose proof Hi as (_ & _ & Hret & Hk2 & (_ & K3) & (FE & FC) & _).
+  rewrite Forall_forall in Hret. specialize (Hret _ Hin). simpl in Hret.
+  destruct (Hret eq_refl) as [_ H2]. destruct (H2 eq_refl) as (Hc & (_ & Hn) & Hf). simpl in Hf.
+  split; [auto|split].
+  - intros c x E. pose proof (Forall_nth _ _ _ _ FC E) as (C1 & C2 & _).
+    pose proof (Forall_nth _ _ _ _ Hn E) as Ho. simpl in Ho. auto.
+  - intros Hs e x E Hp. destruct (Hk2 Hs) as (_ & Heo & _).
+    pose proof (Forall_nth _ _ _ _ FE E) as (_ & _ & E3 & E4 & E5).
+    pose proof (Forall_nth _ _ _ _ Heo E) as Ho. simpl in Ho. auto.
+Qed.
+
+(* ================================================================ double close *)
+(* a further nng_socket_close on the handle of a closed socket fails in its find: it returns NNG_ECLOSED
+   and touches nothing *)
+Lemma second_close_fails fx s : find_sock s <> None ->
+  exists rv, run_act fx s (AFind USockClose) = Some (s, [ARet USockClose rv R_NA]) /\ rv <> C_OK.
+Proof.
+  intros H. simpl. destruct (find_sock s) as [rv|] eqn:E; [|congruence].
+  exists rv. split; auto. unfold find_sock in E.
+  destruct (k_inmap (sk s)); [destruct (k_closed (sk s)); [|destruct (k_device (sk s))]|]; try discriminate E;
+    injection E as <-; discriminate.
+Qed.
+
+(* selection by the source's form (see CloseTerm.terminates_sel) *)
+Definition HandlesInvalid (fx : fixes) : Prop :=
+  forall ph la fi ls s, run fx (init ph la fi) ls = Some s ->
+    (In (USockClose, C_OK, R_SHUT) (rets s) -> handles_invalid s) /\
+    (In (USockClose, C_OK, R_DESTROY) (rets s) ->
+       find_sock s <> None /\ (forall c, find_ctx s c <> None) /\ (k_shutdone (sk s) = true -> handles_invalid s)).
+Definition CompletesPending (fx : fixes) : Prop :=
+  forall ph la fi ls s, run fx (init ph la fi) ls = Some s ->
+    (In (USockClose, C_OK, R_SHUT) (rets s) ->
+       (forall c x, nth_error (ctxs s) c = Some x -> c_pend x = []) /\
+       (forall e x, nth_error (eps s) e = Some x -> e_pub x = true -> e_pend x = [])) /\
+    (In (USockClose, C_OK, R_DESTROY) (rets s) ->
+       k_pend (sk s) = [] /\ (forall c x, nth_error (ctxs s) c = Some x -> c_pend x = []) /\
+       (k_shutdone (sk s) = true -> forall e x, nth_error (eps s) e = Some x -> e_pub x = true -> e_pend x = [])).
+
+Theorem handles_sel fx : if all_fixed fx then HandlesInvalid fx else pinned_defect fx.
+Proof.
+  destruct (all_fixed fx) eqn:E; [|apply pinned_defect_holds; auto].
+  apply all_fixed_eq in E; subst. intros ph la fi ls s Hr. split; intros Hin.
+  - eapply close_handles_invalid_shut; eauto.
+  - eapply close_handles_invalid_destroy; eauto.
+Qed.
+
+Theorem pending_sel fx : if all_fixed fx then CompletesPending fx else pinned_defect fx.
+Proof.
+  destruct (all_fixed fx) eqn:E; [|apply pinned_defect_holds; auto].
+  apply all_fixed_eq in E; subst. intros ph la fi ls s Hr. split; intros Hin.
+  - eapply close_completes_pending_shut; eauto.
+  - eapply close_completes_pending_destroy; eauto.
+Qed.
